@@ -1,9 +1,13 @@
 ---- MODULE XStreamConnTrace ----
-(* Trace validation of the real client stream connection (stream.NewStreamClient over a loopback pair, id counter
-   seeded next to the 32-bit wrap) against XStreamConn (C02). One event per operation of the replayed history:
-     tnew{proto}                                          fresh connection (TraceReset)
+(* Trace validation of the real client stream connection (stream.NewStreamClient over a loopback pair for bolt, boltv2,
+   tars, dubbo; id counter seeded next to a boundary of the protocol's id type) against XStreamConn (C02). The driver reports
+   a real id x as Val((x + shift) % Mod), shift chosen per seed so that the real boundary falls on the model's (the wrap of
+   the type on the model's wrap, the sign flip of int32 on the model's sign flip, a point that is no boundary of the type on
+   none): Start/Signed of the cfg say which. One event per operation of the replayed history:
+     tnew{proto,base}                                     fresh connection (TraceReset)
      new{w,idm,wire_eq,wire_tok,tok,...}                  waiter w opened a stream and sent a request carrying tok: id the stream
-                                                          reports (mod 2^16), whether the id read off the wire equals it, token on the wire
+                                                          reports (in model terms), whether the id field the peer read off the request,
+                                                          in the wire type, is that id, token on the wire
      resp{w,...} ghost{...}                               a response frame for the id of w's latest stream / an unallocated id was dispatched
      reset{w,...}  connreset{...}                         ResetStream on w's stream / connection closed by the peer
    every event carries  delivered: [{w,tok}] OnReceive calls it caused, resets: [w] OnResetStream calls it caused,
@@ -18,15 +22,16 @@ Waiting == { w \in Waiters : cur[w].st = "waiting" }
 TraceInit == l = 1 /\ Init /\ tok = [w \in Waiters |-> ""]
 
 TFresh == /\ IsEvent("tnew")
-          /\ n' = 0 /\ table' = <<>> /\ cur' = [w \in Waiters |-> [id |-> -1, st |-> "idle"]]
+          /\ n' = 0 /\ table' = <<>> /\ cur' = [w \in Waiters |-> [id |-> NoId, wire |-> NoId, st |-> "idle"]]
           /\ bad' = {} /\ dead' = FALSE /\ hist' = <<>> /\ tok' = [w \in Waiters |-> ""]
 
 Quiet == /\ Expect(Ev.delivered = <<>>, "spurious-delivery")
          /\ Expect(Ev.resets = <<>>, "spurious-reset")
 
 (* which id a stream gets is the implementation's business; it must not be in use by a waiting stream and it must be
-   the id the request carries on the wire *)
-TNew == /\ IsEvent("new") /\ NewWith(Ev.w, Ev.idm)
+   the id the request carries on the wire. The peer echoes the id field it read: an id that does not survive the frame
+   field shows as request-stamped-with-other-id here and as a lost response-delivery later *)
+TNew == /\ IsEvent("new") /\ NewWith(Ev.w, Ev.idm, Ev.idm)
         /\ Expect(Ev.idm \notin DOMAIN table, "id-in-use-by-waiting-stream")
         /\ Expect(Ev.wire_eq, "request-stamped-with-other-id")
         /\ Expect(Ev.wire_tok = Ev.tok, "request-content")
